@@ -36,6 +36,9 @@
 #ifndef PARTS
 #define PARTS 7          /* 1 presence + certificate existence, 2 validity, 4 PKI signature */
 #endif
+#ifndef RAW_FLAGS
+#define RAW_FLAGS 0x20   /* header flags of the published-data element as received (0x20 forward, 0x40 non-critical): concrete, they select the header form */
+#endif
 #define RAW_TIME_LEN 4
 #define RAW_LEN (2 + 2 + RAW_TIME_LEN + 2 + 21)
 
@@ -60,8 +63,7 @@ void harness(void) {
 #if PARTS & 4
 	{	/* the published data as received: 10 LL { 02 04 <time> } { 04 15 <imprint> }, kept by the parser as base TLV with its nested elements */
 		KSI_TLV *base = NULL; KSI_LIST(KSI_TLV) *nested = NULL;
-		u8 flags = ND(u8, raw_flags);
-		raw[0] = 0x10 | (flags & 0x60); raw[1] = RAW_LEN - 2; raw[2] = 0x02; raw[3] = RAW_TIME_LEN;
+		raw[0] = 0x10 | RAW_FLAGS; raw[1] = RAW_LEN - 2; raw[2] = 0x02; raw[3] = RAW_TIME_LEN;
 		for (unsigned i = 0; i < RAW_TIME_LEN; i++) raw[4 + i] = ND(u8, raw_time);
 		raw[4 + RAW_TIME_LEN] = 0x04; raw[5 + RAW_TIME_LEN] = 21;
 		for (unsigned i = 0; i < 21; i++) raw[6 + RAW_TIME_LEN + i] = ND(u8, raw_imprint);
@@ -112,7 +114,9 @@ void harness(void) {
 	else if (n_match > 0) { CHECK(IS_OK(res, r), "C04.Hkey a certificate with the record's id is listed: OK"); }
 	else { CHECK(res == KSI_OK && r.resultCode == KSI_VER_RES_NA, "C04.Hkey no certificate with the record's id: NA, never FAIL"); }
 #if SB_HAS_AUTH && C04_WITH_SIGDATA && C04_SIGDATA_CERTID_LEN >= 0
+#if C04_NCERT > 0
 	if (fetch == KSI_OK && n_match > 0 && first == C04_NCERT - 1) WITNESS_POINT("certificate found as the last record");
+#endif
 	if (fetch == KSI_OK && n_match == 0) WITNESS_POINT("certificate not found");
 #else
 	WITNESS_POINT("no usable authentication record");
@@ -144,7 +148,7 @@ void harness(void) {
 	res = KSI_VerificationRule_CalendarAuthenticationRecordSignatureVerification(&sb_vc, &r);
 	if (!usable) { CHECK(IS_ERR(res, r), "C04.Hkey signature rule without authentication record or certificate id: error status and NA"); CHECK(VERIF_pki_raw.calls == 0, "C04.Hkey PKI not consulted without usable record"); }
 	else if (fetch != KSI_OK) { FETCH_FAILED_CHECKS("SignatureVerification"); CHECK(VERIF_pki_raw.calls == 0, "C04.Hkey PKI not consulted without publications file"); }
-	else if (n_match == 0) { CHECK(IS_ERR(res, r), "C04.Hkey signature rule without listed certificate: error status and NA"); CHECK(VERIF_pki_raw.calls == 0, "C04.Hkey PKI not consulted without certificate"); }
+	else if (n_match == 0) { CHECK(IS_ERR(res, r), "C04.Hkey signature rule without listed certificate: error status and NA"); CHECK(VERIF_pki_raw.calls == 0, "C04.Hkey PKI not consulted without certificate"); WITNESS_POINT("signature rule without listed certificate"); }
 	else {
 #if SB_HAS_AUTH && C04_WITH_SIGDATA
 		CHECK(VERIF_pki_raw.calls == 1, "C04.Hkey the PKI oracle is asked exactly once");
@@ -154,8 +158,17 @@ void harness(void) {
 		CHECK(VERIF_pki_raw.sig == c04_sd_sigval->data && VERIF_pki_raw.sig_len == C04_SIGVAL_LEN, "C04.Hkey the PKI signature value of the record is checked");
 		CHECK(VERIF_pki_raw.oid == c04_sigtype, "C04.Hkey the signature algorithm of the record is used");
 		if (n_match == 1) CHECK(VERIF_pki_raw.cert == c04_cert[first], "C04.Hkey the certificate with the record's id is used");
-		if (VERIF_pki_raw_verdict == KSI_OK) { CHECK(IS_OK(res, r), "C04.Hkey PKI signature verifies: OK"); WITNESS_POINT("PKI signature verifies"); }
-		else { CHECK(IS(res, r, KSI_VER_RES_FAIL, KSI_VER_ERR_KEY_2), "C04.Hkey PKI signature does not verify: FAIL KEY-02"); if (VERIF_pki_raw_verdict == KSI_INVALID_PKI_SIGNATURE) WITNESS_POINT("PKI signature wrong"); }
+		if (VERIF_pki_raw_verdict == KSI_OK) {
+			CHECK(IS_OK(res, r), "C04.Hkey PKI signature verifies: OK");
+#if C04_NCERT > 0
+			WITNESS_POINT("PKI signature verifies");
+#endif
+		} else {
+			CHECK(IS(res, r, KSI_VER_RES_FAIL, KSI_VER_ERR_KEY_2), "C04.Hkey PKI signature does not verify: FAIL KEY-02");
+#if C04_NCERT > 0
+			if (VERIF_pki_raw_verdict == KSI_INVALID_PKI_SIGNATURE) WITNESS_POINT("PKI signature wrong");
+#endif
+		}
 #endif
 	}
 #endif
